@@ -1206,10 +1206,22 @@ impl Subscription {
         let pending = self.is_affected_by_attr_changes(rx, changed_attrs)
             || self.is_affected_by_new_events(rx, event_numbers_watermark);
 
-        if pending {
+        let next = if pending {
             allowed_at
         } else {
             allowed_at.max(self.report_due_at())
+        };
+
+        // Never sleep past the expiry of the subscription: while its reports keep
+        // failing, `allowed_at` is the (growing) retry back-off, which may lie up to
+        // `max_int` beyond the instant `is_expired` flips - the subscription would
+        // linger in the table for up to two maximum intervals after its last success.
+        match self
+            .reported_at
+            .checked_add(embassy_time::Duration::from_secs(self.max_int_secs as _))
+        {
+            Some(expires_at) => next.min(expires_at),
+            None => next,
         }
     }
 }
